@@ -154,6 +154,12 @@ M = [
  ("c17_scaninfo_shared_index", "C17", "R-JBR-SCANINFO", "crates/jxl-jbr/src/lib.rs",
   "        let num_extra_zero_runs = bitstream.read_u32(0, 1 + U(2), 4 + U(4), 20 + U(16))?;\n        let mut last_block_idx: Option<u32> = None;\n",
   "        let num_extra_zero_runs = bitstream.read_u32(0, 1 + U(2), 4 + U(4), 20 + U(16))?;\n"),
+ ("c18_ctx_kind1_240", "C18", "R-ICC-CTX", "crates/jxl-color/src/icc/decode.rs",
+  "        241..=254 => 5,", "        240..=254 => 5,"),
+ ("c18_ctx_kind2_16", "C18", "R-ICC-CTX", "crates/jxl-color/src/icc/decode.rs",
+  "        0..=15 => 2,\n        241..=255 => 3,", "        0..=16 => 2,\n        241..=255 => 3,"),
+ ("c18_ctx_header_boundary", "C18", "R-ICC-CTX", "crates/jxl-color/src/icc/decode.rs",
+  "    if idx <= 128 {\n        return 0;", "    if idx < 128 {\n        return 0;"),
  ("c18_interp_order1_sign", "C18", "script:predict width 1 order 1", "crates/jxl-color/src/icc/decode.rs",
   "                        1 => Wrapping(2) * prev[0] - prev[1],", "                        1 => Wrapping(2) * prev[0] + prev[1],"),
  ("c18_interp_xyz_triple_offset", "C18", "script:tag list", "crates/jxl-color/src/icc/decode.rs",
